@@ -20,6 +20,12 @@ def _c18_case(c):
         return _c18_unhex(nxt())
 
     kind = nxt()
+    if kind == "E":
+        return {"kind": "E", "u": s(), "p": s()}
+    if kind == "X":
+        return {"kind": "X", "auth": s()}
+    if kind == "HOST":
+        return {"kind": "HOST", "addr": s()}
     if kind != "H":
         return {"raw": c}
 
